@@ -1179,9 +1179,13 @@ func verifyGitObjectAndAttestations(ctx context.Context, policy *State, target s
 			// explicitly not looking at the attestation
 			// that applies to the _push_
 			// thus, we also set threshold to 1
-			verifier.threshold = 1
+			// The verifiers are memoised in the policy state and used
+			// again for later entries, so the threshold is lowered on a
+			// copy
+			tagObjectVerifier := *verifier
+			tagObjectVerifier.threshold = 1
 
-			_, err := verifier.Verify(ctx, options.tagObjectID, nil)
+			_, err := tagObjectVerifier.Verify(ctx, options.tagObjectID, nil)
 			if err == nil {
 				// Signature verification succeeded
 				tagObjVerified = true
